@@ -578,7 +578,7 @@ fn main() {
     ck.assume("events are generated only in shapes the client-server specification describes; no compat-* or unstable-* cargo feature is enabled");
     let table = std::sync::Arc::new(schemas());
     ck.extra("event_types", json!(table.len()));
-    let n = ck.n(150_000, 6_000_000);
+    let n = ck.n(400_000, 6_000_000);
     let nt = table.len() as u16;
     let t2 = table.clone();
     ck.prop(
